@@ -60,7 +60,6 @@ def runTrie (color : Bool) : Trie := if color then whiteTrie else blackTrie
 inductive Err where
   | invalidData          -- CCITTG4Parser.InvalidData
   | valueError           -- PDFValueError (K ≠ -1)
-  | typeError            -- Columns missing
   | unmodelled           -- uncompressed mode / degenerate width: outside this model
   deriving DecidableEq, Repr
 
@@ -241,16 +240,30 @@ def initSt (width : Nat) (bytealign reversed : Bool) : St :=
     refline := List.replicate width true, curline := List.replicate width true,
     curpos := -1, color := true, n1 := 0, n2 := 0, acc := .mode, node := modeTrie, buf := [] }
 
-/-- `ccittfaxdecode(data, params)` with `params = {K, Columns, EncodedByteAlign, BlackIs1}` -/
+/-- `ccittfaxdecode(data, params)` with `params = {K, Columns, EncodedByteAlign, BlackIs1}`;
+`columns = none` is an absent key: `params.get("Columns", 1728)` (the ISO 32000-1 default, after the
+fix "CCITTFaxDecode Columns defaults to 1728"). -/
 def ccittfaxdecode (K : Option Int) (columns : Option Int) (bytealign reversed : Bool)
     (data : List UInt8) : Except Err (List UInt8) :=
   if K ≠ some (-1) then .error .valueError else
-  match columns with
-  | none => .error .typeError
-  | some c =>
-    if c ≤ 0 then .error .unmodelled else
-    match feedBytes (initSt c.toNat bytealign reversed) data with
-    | .error e => .error e
-    | .ok st => .ok st.buf
+  let c : Int := columns.getD 1728
+  if c ≤ 0 then .error .unmodelled else
+  match feedBytes (initSt c.toNat bytealign reversed) data with
+  | .error e => .error e
+  | .ok st => .ok st.buf
+
+/-- The entries of the decode-parameter dictionary read by `ccittfaxdecode` (`params.get(key)`;
+`none` = key absent).  This is also the `CCITTFaxDecode` branch of `PDFStream.decode`, which
+passes the filter's `DecodeParms` dictionary unchanged. -/
+structure Params where
+  K : Option Int
+  columns : Option Int
+  encodedByteAlign : Option Bool
+  blackIs1 : Option Bool
+  deriving Repr
+
+/-- An absent `EncodedByteAlign` / `BlackIs1` is `None`, which is falsy. -/
+def ccittfaxdecodeParams (p : Params) (data : List UInt8) : Except Err (List UInt8) :=
+  ccittfaxdecode p.K p.columns (p.encodedByteAlign.getD false) (p.blackIs1.getD false) data
 
 end PdfVerif.Ccitt
